@@ -2628,7 +2628,13 @@ strappend_base64(struct xar *xar,
 	while (l > 0) {
 		int n = 0;
 
-		if (base64[b[0]] < 0 || base64[b[1]] < 0)
+		/* Encoders break long base64 text into lines. */
+		if (*b == '\r' || *b == '\n' || *b == ' ' || *b == '\t') {
+			b++;
+			l--;
+			continue;
+		}
+		if (l < 2 || base64[b[0]] < 0 || base64[b[1]] < 0)
 			break;
 		n = base64[*b++] << 18;
 		n |= base64[*b++] << 12;
